@@ -386,6 +386,7 @@ for _k, _v in MORE10.items():
 MORE11 = {
     'C01': 'R01.26 line splitting keeps terminators; R01.25 also rejects diffs derived from difflib opcodes outside seq_difflib; R01.27 no alignment predicate decides what a notebook differ reports.',
     'C03': 'R03.1 also evaluates the leading asserts of _merge_concurrent_inserts with the abstract arguments of every call in the 36-type chunk model.',
+    'C11': 'R11.16 the diff stored under a MIME key is a differ\'s result on the stored payloads themselves.',
     'C18': 'R18.16 the global attributes location has no existence test.',
     'C19': 'R19.14 recursive_update tabulated over 22 cases.',
     'C04': 'R04.15 /nbformat_minor is always take-max.',
